@@ -2,6 +2,7 @@ package main
 
 import (
 	"go/ast"
+	"go/token"
 )
 
 // structFacts extracts a few more structural facts that the models take for granted:
@@ -235,7 +236,82 @@ func structFacts(e *env, p func(format string, args ...any)) {
 			}
 		}
 	}
+	// (7) the header names mergeMetadataHeaders leaves out when an error's metadata is written
+	// to a response (header.go); without that function the list is empty and the model merges
+	// everything, as mergeHeaders does
+	var excluded []string
+	viaFilter := 0
+	if fd, ok := e.funcs["mergeMetadataHeaders"]; ok {
+		ast.Inspect(fd.Body, func(n ast.Node) bool {
+			cc, ok := n.(*ast.CaseClause)
+			if !ok || cc.List == nil {
+				return true
+			}
+			skips := false
+			for _, st := range cc.Body {
+				if br, ok := st.(*ast.BranchStmt); ok && br.Tok == token.CONTINUE {
+					skips = true
+				}
+			}
+			if !skips {
+				return true
+			}
+			for _, c := range cc.List {
+				if s, ok := e.exprStr(c); ok {
+					excluded = append(excluded, s)
+				} else {
+					e.fail("mergeMetadataHeaders: case expression is not a constant string")
+				}
+			}
+			return true
+		})
+	}
+	// the three places that write an error's metadata to the wire and what they call to do it
+	for _, fn := range []string{"connectStreamingMarshaler.MarshalEndStream", "grpcErrorToTrailer", "connectUnaryHandlerConn.writeResponseHeader"} {
+		fd, ok := e.funcs[fn]
+		if !ok {
+			continue
+		}
+		through := false
+		plain := false
+		ast.Inspect(fd.Body, func(n ast.Node) bool {
+			x, ok := n.(*ast.CallExpr)
+			if !ok || len(x.Args) != 2 {
+				return true
+			}
+			id, ok := x.Fun.(*ast.Ident)
+			if !ok {
+				return true
+			}
+			isMeta := false
+			if se, ok := x.Args[1].(*ast.SelectorExpr); ok && se.Sel.Name == "meta" {
+				isMeta = true
+			}
+			if isMeta && id.Name == "mergeMetadataHeaders" {
+				through = true
+			}
+			if isMeta && id.Name == "mergeHeaders" {
+				plain = true
+			}
+			return true
+		})
+		if through && !plain {
+			viaFilter++
+		}
+	}
+	if viaFilter != 3 {
+		// some writer merges the metadata unfiltered: the model must do the same
+		excluded = nil
+	}
 	p("\n(* ---- further structural facts (from the AST) ---- *)\n")
+	p("Definition metadata_excluded_headers : list bytes := (* mergeMetadataHeaders header.go; writers going through it: %d of 3 *)\n  [", viaFilter)
+	for i, k := range excluded {
+		if i > 0 {
+			p("; ")
+		}
+		p("%s (* %q *)", coqBytes(k), k)
+	}
+	p("].\n")
 	p("Definition client_accessors_wait_for_response : bool := %s. (* ResponseHeader / ResponseTrailer of the three client conns start with BlockUntilResponseReady: %d of 6 *)\n", b(accessorsWait), nAcc)
 	p("Definition recover_flag_is_per_call : bool := %s. (* `panicked` declared inside the returned function literal of WrapUnary / WrapStreamingHandler: %d of 2 *)\n", b(perCall), nFlags)
 	p("Definition client_new_conn_uses_chain_context : bool := %s. (* Client.newConn: the innermost function hands its own ctx parameter to NewConn *)\n", b(chainCtx))
